@@ -14,7 +14,12 @@
 //! <https://www.jstor.org/stable/2007781>
 
 use std::cmp::min;
+#[cfg(not(yamaquasi_verif_loom))]
 use std::sync::RwLock;
+#[cfg(yamaquasi_verif_loom)]
+use crate::verif_shim as rayon;
+#[cfg(yamaquasi_verif_loom)]
+use crate::verif_shim::sync::RwLock;
 
 use bnum::cast::CastFrom;
 
